@@ -230,6 +230,16 @@ Str: /'[^']*'/;
 Eq: '=';
 """)
 
+# lower-case names: a terminal's type and its action function get the SAME name (`pub type num`, `pub fn num`), likewise
+# single-word rules; the two name spaces (types, functions) of the regeneration must stay separate
+_g("lowercase", """
+list: list item | item;
+item: num | word;
+terminals
+num: /\\d+/;
+word: /[a-z]+/;
+""")
+
 
 def names():
     return list(GRAMMARS.keys())
